@@ -614,7 +614,7 @@ def specialise(ctx, s, consts, nparams=None, config=None):
     return norm(il.fold(il.subst(s.ret, args)))
 
 
-def expanded_calls(ctx, s, is_target, depth=2, config=None):
+def expanded_calls(ctx, s, is_target, depth=2, config=None, allow_conditional=False):
     """the calls of summary `s` that satisfy is_target(call), looking through private crate helpers: a call of a helper
     whose body makes target calls unconditionally is replaced by those calls, with the helper's parameters and its
     (single) generic parameter substituted by the arguments of the call site.  Records keep the OUTER block/line, so
@@ -648,11 +648,12 @@ def expanded_calls(ctx, s, is_target, depth=2, config=None):
             if outer is not None:
                 rc.update(blk=outer['blk'], line=outer['line'], via=sm.body.key if hasattr(sm.body, 'key') else None)
             if is_target(rc):
-                if outer is not None and dnf(sm, c['blk']) not in ([], [[]]) and any(g_['cond'] is not None for conj in dnf(sm, c['blk']) for g_ in conj):
+                if outer is not None and not allow_conditional and dnf(sm, c['blk']) not in ([], [[]]) and \
+                        any(g_['cond'] is not None for conj in dnf(sm, c['blk']) for g_ in conj):
                     out.append(dict(rc, callee=None, why='conditional inside helper'))
                 else:
                     out.append(rc)
-            elif d > 0 and callee in facts.bodies and has_target(callee, d - 1, set()):
+            elif d > 0 and callee in facts.bodies and not (facts.fns.get(callee) or {}).get('pub') and has_target(callee, d - 1, set()):
                 hs = an.summary(callee)
                 gs = {}
                 free = sorted({g for cc in hs.calls for g in cc['gargs'] if isinstance(g, str) and '::' not in g and g[:1].isupper() and len(g) <= 2})
